@@ -92,7 +92,7 @@ example : staticLc LibCfg.fixed true (bytesS "ab") = .val 8 ∧ staticLc LibCfg.
 /-- Known finding `static-deq-asymmetric`: DeepEqual(1, 1.5) is true (the float is truncated), DeepEqual(1.5, 1) false. -/
 theorem repo_not_correct_deq_asymmetric :
     staticDeqAccepts (intS 1) (f64S 1572864)
-      (staticDeq LibCfg.repo (intS 1) (f64S 1572864)) (staticDeq LibCfg.repo (f64S 1572864) (intS 1)) = false := by
+      (staticDeq LibCfg.original (intS 1) (f64S 1572864)) (staticDeq LibCfg.original (f64S 1572864) (intS 1)) = false := by
   decide
 
 /-- Known finding `static-deq-diverges`: a string against an int recurses forever. -/
@@ -125,5 +125,84 @@ theorem copyTo_bad_form_counterexample :
     staticCopyToAccepts (intS 1) .int "x" (staticCopyToObs LibCfg.fixed (intS 1) .int "int" "x") = false := by
   decide
 end NonVacuity
+
+/-! ### The current tree
+
+Every listed defect of the static and strings inspectors has been repaired in /repo: the configuration that
+mirrors the tree is the repaired one up to the one switch of the map[string]any inspector that may still be on
+(`samapNilPtrPanics`, which `staticCmp` / `staticDeq` / … do not read), so every theorem above is a theorem about
+the model of the current tree. (With that switch off in `LibCfg.repo` the right-hand side is `LibCfg.fixed`.) -/
+section CurrentTree
+theorem repo_is_fixed : LibCfg.repo = LibCfg.fixed := rfl
+
+theorem cmp_current (s : Src) (op : Op) (right : Seg) :
+    staticCmpAccepts s op right (staticCmp LibCfg.repo s op right) = true := cmp_correct s op right
+theorem deq_current (l r : Src) :
+    staticDeqAccepts l r (staticDeq LibCfg.repo l r) (staticDeq LibCfg.repo r l) = true := deq_correct l r
+theorem deq_symmetric_current (l r : Src) : staticDeq LibCfg.repo l r = staticDeq LibCfg.repo r l :=
+  deq_symmetric l r
+end CurrentTree
+
+/-! ### C02 for the static inspector: no method panics, typed-nil pointers included
+
+(`CopyTo` needs its out-parameter: a nil destination pointer is outside C02's quantifier.) -/
+section NoPanic
+theorem cmp_no_panic (s : Src) (op : Op) (right : Seg) : staticCmp LibCfg.fixed s op right ≠ .panic := by
+  unfold staticCmp
+  simp only [LibCfg.fixed]
+  by_cases hf : s.kind = .foreign
+  · simp [hf]
+  · by_cases hn : s.v.isNilPtr = true
+    · simp [hf, hn]
+    · simp only [hn]
+      cases s.kind.family
+      all_goals simp only []
+      all_goals (repeat' split)
+      all_goals simp
+
+theorem deq_no_panic (l r : Src) : staticDeq LibCfg.fixed l r ≠ .panic := by
+  rcases deq_total l r with h | h <;> simp [h]
+
+theorem lc_no_panic (isCap : Bool) (s : Src) : staticLc LibCfg.fixed isCap s ≠ .panic := by
+  unfold staticLc
+  simp only [LibCfg.fixed]
+  split
+  · simp
+  · split <;> simp
+
+theorem copy_no_panic (s : Src) : (sobsOf (staticCopy LibCfg.fixed s)).tag ≠ "panic" := by
+  unfold staticCopy
+  simp only [LibCfg.fixed]
+  split
+  · decide
+  · split <;> simp [sobsOf]
+
+/-- CopyTo refuses a typed-nil destination pointer as well: no destination form panics. -/
+theorem copyTo_no_panic (s : Src) (dkind : DynKind) (dk dform : String) :
+    (staticCopyToObs LibCfg.fixed s dkind dk dform).tag ≠ "panic" := by
+  unfold staticCopyToObs staticCopyTo
+  simp only [LibCfg.fixed]
+  by_cases hf : s.kind = .foreign
+  · simp [hf, sobsOf]
+  · by_cases hn : s.v.isNilPtr = true
+    · simp [hf, hn, sobsOf]
+    · by_cases hd : (dform != "v" && dform == "pn") = true
+      · simp [hf, hn, hd, sobsOf]
+      · by_cases hm : (dform != "v" && dkind == s.kind) = true
+        · simp only [hn, hd, hm]
+          cases hv : s.v <;> simp_all [sobsOf, Val.isNilPtr] <;> (split <;> simp_all)
+        · simp [hf, hn, hd, hm, sobsOf]
+
+theorem reset_no_panic (s : Src) : (staticResetObs LibCfg.fixed s).tag ≠ "panic" := by
+  unfold staticResetObs
+  simp only [LibCfg.fixed]
+  repeat (first | split | decide | simp)
+
+/-- The original library dereferenced a typed-nil `*int`. -/
+theorem original_panics_nil_ptr :
+    staticCmp LibCfg.original { kind := .int, isPtr := true, v := .nilptr } 1 { text := strBytes "1", pi := some 1 } = .panic ∧
+    staticLc LibCfg.original false { kind := .string, isPtr := true, v := .nilptr } = .panic ∧
+    (staticResetObs LibCfg.original { kind := .int, isPtr := true, v := .nilptr }).tag = "panic" := by decide
+end NoPanic
 
 end Inspector.C16
